@@ -25,10 +25,16 @@ fn scheme(n: usize) -> String {
     s
 }
 
+fn scheme_b_retyped() -> String {
+    format!("# revision 2\n{}\n", scheme(200).replace('=', " = "))
+}
+
 fn scheme_of(c: char) -> Option<String> {
     match c {
         'B' => Some(scheme(200)),
         'C' => Some(scheme(300)),
+        // the same lines as B in a different text (comment line, spaces): another md5 for the server, an equal parsed scheme
+        'b' => Some(scheme_b_retyped()),
         'D' => Some(DEFAULT.to_string()), // the built-in default text, pushed by a server that runs it
         'X' => Some("this is not a scheme".to_string()), // no stop= : cannot be parsed
         'Y' => Some("stop=abc\n1=5-5".to_string()),
@@ -67,7 +73,7 @@ pub fn child(history: &str) -> i32 {
                 let f = PaddingFactory::default();
                 out.push(json!({"step": step, "op": "T", "md5": f.md5()}));
             }
-            'B' | 'C' | 'D' | 'X' | 'Y' => {
+            'B' | 'b' | 'C' | 'D' | 'X' | 'Y' => {
                 let pushed = scheme_of(op).unwrap();
                 let parsable = parse_scheme(&pushed).is_some();
                 let factory = client_factory();
@@ -119,8 +125,8 @@ pub fn child(history: &str) -> i32 {
                     current = Some(pushed);
                 }
             }
-            'R' | 'r' | 'd' => {
-                let srv_scheme = if op == 'R' { scheme(200) } else if op == 'r' { scheme(300) } else { DEFAULT.to_string() };
+            'R' | 'r' | 'd' | 'q' => {
+                let srv_scheme = if op == 'R' { scheme(200) } else if op == 'r' { scheme(300) } else if op == 'q' { scheme_b_retyped() } else { DEFAULT.to_string() };
                 let w = world.get_or_insert_with(|| rt.block_on(World::start(custom)));
                 let r = rt.block_on(w.request(&srv_scheme));
                 out.push(json!({"step": step, "op": op.to_string(), "result": r}));
@@ -315,7 +321,7 @@ fn session_grid(rep: &mut Report, thorough: bool) {
 
 fn expected_size(s: &Option<String>) -> Option<usize> {
     // None = built-in default scheme: not one of the fixed-size schemes
-    s.as_ref().and_then(|t| if t == &scheme(200) { Some(200) } else if t == &scheme(300) { Some(300) } else if t == &scheme(150) { Some(150) } else { None })
+    s.as_ref().and_then(|t| if t == &scheme(200) || t == &scheme_b_retyped() { Some(200) } else if t == &scheme(300) { Some(300) } else if t == &scheme(150) { Some(150) } else { None })
 }
 
 pub fn run(tier: Tier) -> i32 {
@@ -326,7 +332,7 @@ pub fn run(tier: Tier) -> i32 {
         "schemes B and C prescribe one write of exactly 200 / 300 bytes for every packet below stop (disjoint from each other and from the built-in default), so the scheme in force is visible in the write sizes".into(),
         "client requests run against a scripted TLS server inside the harness that reads the announced padding-md5 and pushes its scheme when it differs".into(),
     ];
-    let ops = ['T', 'Z', 'B', 'C', 'D', 'X', 'R', 'r', 'd'];
+    let ops = ['T', 'Z', 'B', 'b', 'C', 'D', 'X', 'R', 'r', 'd', 'q'];
     let depth = if thorough { 4 } else { 3 };
     let mut hists: Vec<String> = vec![];
     let mut frontier: Vec<String> = vec![String::new()];
@@ -338,7 +344,7 @@ pub fn run(tier: Tier) -> i32 {
                 if (o == 'T' || o == 'Z') && !h.is_empty() {
                     continue;
                 }
-                if (o == 'R' || o == 'r' || o == 'd') && h.chars().filter(|c| *c == 'R' || *c == 'r' || *c == 'd').count() >= 2 {
+                if (o == 'R' || o == 'r' || o == 'd' || o == 'q') && h.chars().filter(|c| *c == 'R' || *c == 'r' || *c == 'd' || *c == 'q').count() >= 2 {
                     continue;
                 }
                 // the built-in default text is only interesting for a client configured otherwise
@@ -353,7 +359,7 @@ pub fn run(tier: Tier) -> i32 {
     }
     hists.push("TY".into());
     hists.push("YB".into());
-    let exe = std::env::current_exe().unwrap();
+    let exe = crate::det::self_exe();
     let n = hists.len();
     let hs = Arc::new(hists);
     let h2 = hs.clone();
@@ -388,7 +394,7 @@ pub fn run(tier: Tier) -> i32 {
             let step = st["step"].as_u64().unwrap_or(0);
             let ctx = format!("history {h} step {step} ({op}){}", if touched_first { "" } else { " [default not touched before]" });
             match op {
-                'B' | 'C' | 'D' | 'X' | 'Y' => {
+                'B' | 'b' | 'C' | 'D' | 'X' | 'Y' => {
                     let res = &st["result"];
                     if res.is_null() || !st["panics"].as_array().map(|a| a.is_empty()).unwrap_or(true) {
                         rep.violation("C19:session-disturbed", &format!("{ctx}: {:?}", st["panics"]), json!({"engine": "BX-child", "history": h}));
@@ -437,9 +443,9 @@ pub fn run(tier: Tier) -> i32 {
                         current = Some(pushed);
                     }
                 }
-                'R' | 'r' | 'd' => {
+                'R' | 'r' | 'd' | 'q' => {
                     let res = &st["result"];
-                    let srv = if op == 'R' { scheme(200) } else if op == 'r' { scheme(300) } else { DEFAULT.to_string() };
+                    let srv = if op == 'R' { scheme(200) } else if op == 'r' { scheme(300) } else if op == 'q' { scheme_b_retyped() } else { DEFAULT.to_string() };
                     if res["request_ok"].as_bool() != Some(true) {
                         rep.violation("C19:request-failed", &format!("{ctx}: {res}"), json!({"engine": "BX-child", "history": h}));
                         continue;
@@ -463,6 +469,6 @@ pub fn run(tier: Tier) -> i32 {
         }
     }
     session_grid(&mut rep, thorough);
-    rep.sections.insert("bx".into(), json!({"histories": n, "depth": depth, "alphabet": "T (touch default) | Z (client constructed with a custom scheme), B C D (session + push of scheme B / C / the built-in default text), X (session + unparsable push), R r d (client request against a scripted TLS server using B / C / the built-in default)"}));
+    rep.sections.insert("bx".into(), json!({"histories": n, "depth": depth, "alphabet": "T (touch default) | Z (client constructed with a custom scheme), B b C D (session + push of scheme B / B retyped (same lines, other text) / C / the built-in default text), X (session + unparsable push), R q r d (client request against a scripted TLS server using B / B retyped / C / the built-in default)"}));
     rep.finish("BX over process histories, one fresh child process each: every history of length <= d over {touch default, session with a push of scheme B / C / an unparsable scheme followed by shaped writes, client request through the real Client against a scripted TLS server}; write sizes after a push must be those of the pushed scheme, sessions created afterwards must start with it and announce its md5, an unparsable push changes nothing; plus an exhaustive per-session grid (stop of the announced scheme x stop of the pushed scheme x packets sent before the push) comparing every packet's write sizes with the reference shaper; non-trivial = distinct history / grid case")
 }
